@@ -6,7 +6,7 @@
    or processed something the file persister's control record must equal (next_send, next_recv). *)
 From Coq Require Import NArith ZArith List Bool.
 From F8 Require Import Sess.Bytes Sess.Msg Sess.Persist Sess.Session Sess.SimpleCodec Sess.Wire
-  Sess.SessLemmas Sess.SendLemmas Sess.Demo C16.Spec_C16 C16.C16Proofs.
+  Sess.SessLemmas Sess.SendLemmas Sess.Demo C16.Spec_C16 C16.C16Proofs C16.C16Restart.
 Import ListNotations.
 Local Open Scope N_scope.
 
@@ -22,6 +22,25 @@ Theorem c16_consecutive : forall (sc : schema) (p : startp) (t : option Z) (ops 
   c16_ok (OStart p t :: ops) (run_history sc (OStart p t :: ops)) = true.
 Proof. exact c16_consecutive_lemma. Qed.
 Print Assumptions c16_consecutive.
+
+(* c16_restart: the same with RESTART anywhere in the history (a new session object on the same persister:
+   the file persister is re-opened on its files, a memory persister is replaced by an empty one): the
+   initiator continues with the sender number of the recovered control record (or the configured start
+   number, or 1), the acceptor starts at 1, and every send keeps the control record current. *)
+Theorem c16_restart : forall (sc : schema) (p : startp) (t : option Z) (ops : list op),
+  wf_schema sc = true -> wf_start p = true -> forallb plain_or_restart ops = true ->
+  c16_ok (OStart p t :: ops) (run_history sc (OStart p t :: ops)) = true.
+Proof. exact c16_restart_lemma. Qed.
+Print Assumptions c16_restart.
+
+(* non-vacuity of c16_restart: two restarts on a file persister; the Logons of the second and third session
+   instance carry 4 and 6, the numbers on the wire are 1..8, the control record ends at (9, 1). *)
+Theorem c16_restart_nonvacuous :
+  forallb plain_or_restart h_restart = true /\
+  all_new_seqs (run_history demo_schema (OStart (demo_init PFile) None :: h_restart)) = map dec [1; 2; 3; 4; 5; 6; 7; 8] /\
+  ctrl_and_seq (run_history demo_schema (OStart (demo_init PFile) None :: h_restart)) = Some (Some (9, 1), 9, 1).
+Proof. exact c16_restart_nonvacuous_lemma. Qed.
+Print Assumptions c16_restart_nonvacuous.
 
 (* c16_unique: what acceptance by the numbering automaton means, for ANY list of wire events (of either
    side): the MsgSeqNums of the new (non-PossDup, non-gap-fill) messages are pairwise different. *)
